@@ -415,7 +415,7 @@ func genC20(t *rapid.T) *C20Case {
 				if b == nil {
 					continue
 				}
-				insertStmt(b, 0, &Stmt{K: "label", Label: &LabelS{Name: name}, Inj: true})
+				insertStmt(b, 0, &Stmt{K: "label", Label: &LabelS{Name: name, Scope: rapid.SampledFrom([]string{"", "", "global", "local"}).Draw(t, "clashlabelscope")}, Inj: true})
 				c.Deep = !isScriptName(f, mm[1])
 			case "label-clash-text":
 				// in a script or in an inline map script
@@ -424,7 +424,7 @@ func genC20(t *rapid.T) *C20Case {
 					continue
 				}
 				en := enames[rapid.IntRange(0, len(enames)-1).Draw(t, "script")]
-				insertStmt(eblocks[en], 0, &Stmt{K: "label", Label: &LabelS{Name: name}, Inj: true})
+				insertStmt(eblocks[en], 0, &Stmt{K: "label", Label: &LabelS{Name: name, Scope: rapid.SampledFrom([]string{"", "", "global", "local"}).Draw(t, "clashlabelscope")}, Inj: true})
 				c.Deep = !isScriptName(f, en)
 			}
 			c.Kind = kind
